@@ -16,7 +16,9 @@ BASEFLAGS="-Zmiri-preemption-rate=$RATE"
 mode="${1:-}"; shift || true
 case "$mode" in
   build)
-    MIRIFLAGS="$BASEFLAGS" cargo +nightly miri build --offline >/dev/null 2>"$HERE/.build.log" || { tail -20 "$HERE/.build.log" >&2; echo "harness error: Miri build failed" >&2; exit 2; }
+    # `cargo miri` has no build subcommand: prepare the sysroot here, the program itself is built by
+    # the first `miri run`
+    cargo +nightly miri setup >/dev/null 2>"$HERE/.build.log" || { tail -20 "$HERE/.build.log" >&2; echo "harness error: cargo miri setup failed" >&2; exit 2; }
     exit 0 ;;
   replay)
     sc="$1"; seed="$2"; RATE="${3:-$RATE}"
